@@ -99,6 +99,9 @@ pub enum Kind {
     /// rewrite the extended_master_secret extension type in every ClientHello (a downgrade that
     /// leaves both sides with the same keys and different transcripts)
     StripEms,
+    /// rewrite the selected SRTP protection profile in every ServerHello (1 <-> 7): an unsigned
+    /// negotiation field, both sides keep the same keys and different transcripts
+    RewriteSrtpProfile,
     /// re-seal the server's Finished with one verify_data bit flipped (the harness reads the
     /// sending endpoint's keys: a relay that knows the keys)
     RewriteFinished { bit: u8 },
@@ -123,6 +126,7 @@ impl Kind {
             Kind::SpliceStale(Splice::Ske) => "splice-stale-ske",
             Kind::SpliceStale(Splice::Flight) => "splice-stale-flight",
             Kind::StripEms => "strip-ems",
+            Kind::RewriteSrtpProfile => "rewrite-srtp-profile",
             Kind::RewriteFinished { .. } => "rewrite-finished",
             Kind::InjectPlainAppData => "inject-plain-appdata",
         }
@@ -138,6 +142,65 @@ pub struct Op {
     pub kind: Kind,
 }
 
+/// How the expected-fingerprint STRING handed to the victim is written.
+#[derive(Clone, Copy, Debug, Default, PartialEq, Eq, Serialize, Deserialize)]
+pub enum FpForm {
+    /// upper-case hex pairs joined by ':' (what rustrtc's own `fingerprint()` prints)
+    #[default]
+    Canonical,
+    /// "sha-256 " in front (the SDP attribute value as a whole)
+    AlgPrefix,
+    Lower,
+    NoColons,
+    /// one octet missing in the middle
+    DropOctet,
+    /// ":ZZ" appended
+    TrailingGarbage,
+    /// one more octet appended
+    TrailingOctet,
+    Empty,
+    Whitespace,
+    /// the single octet "00"
+    Zero,
+}
+
+impl FpForm {
+    pub fn apply(self, canonical: &str) -> String {
+        match self {
+            FpForm::Canonical => canonical.to_string(),
+            FpForm::AlgPrefix => format!("sha-256 {canonical}"),
+            FpForm::Lower => canonical.to_lowercase(),
+            FpForm::NoColons => canonical.replace(':', ""),
+            FpForm::DropOctet => {
+                let mut v: Vec<&str> = canonical.split(':').collect();
+                if v.len() > 16 {
+                    v.remove(16);
+                }
+                v.join(":")
+            }
+            FpForm::TrailingGarbage => format!("{canonical}:ZZ"),
+            FpForm::TrailingOctet => format!("{canonical}:00"),
+            FpForm::Empty => String::new(),
+            FpForm::Whitespace => "   ".to_string(),
+            FpForm::Zero => "00".to_string(),
+        }
+    }
+}
+
+/// A forged Finished for the victim, sent by the harness once the victim holds session keys.
+#[derive(Clone, Copy, Debug, PartialEq, Eq, Serialize, Deserialize)]
+pub struct Forge {
+    /// length of verify_data (the right length is 12)
+    pub len: u8,
+    /// start from the correct verify_data (cut to `len`, or padded beyond 12) when the harness
+    /// can learn the keys from the sending endpoint's published state; garbage otherwise
+    pub correct_prefix: bool,
+    /// epoch-0 plaintext record (else sealed under the sender's write key when known)
+    pub plaintext: bool,
+    /// every transmission of the genuine Finished towards the victim is dropped
+    pub drop_genuine: bool,
+}
+
 #[derive(Clone, Debug, Serialize, Deserialize)]
 pub struct Case {
     /// the victim plays the DTLS server (else the client)
@@ -146,7 +209,18 @@ pub struct Case {
     pub g: u8,
     pub peer: Peer,
     pub fp: Fp,
+    #[serde(default)]
+    pub fp_form: FpForm,
     pub ops: Vec<Op>,
+    #[serde(default)]
+    pub forge: Option<Forge>,
+}
+
+impl Case {
+    /// field defaults for struct-update syntax
+    fn blank() -> Case {
+        Case { victim_server: false, g: 0, peer: Peer::Genuine, fp: Fp::Genuine, fp_form: FpForm::Canonical, ops: vec![], forge: None }
+    }
 }
 
 pub(crate) fn genuine(g: u8) -> Certificate {
@@ -184,6 +258,10 @@ fn peer_certificate(c: &Case) -> Certificate {
 }
 
 fn expected_fp(c: &Case) -> Option<String> {
+    canonical_fp(c).map(|f| c.fp_form.apply(&f))
+}
+
+fn canonical_fp(c: &Case) -> Option<String> {
     let of = |cert: &Certificate| hs::sdp_fingerprint(&cert.certificate[0]);
     match c.fp {
         Fp::None => None,
@@ -296,6 +374,32 @@ fn strip_ems(pkt: &[u8]) -> Vec<u8> {
     rebuild(&recs)
 }
 
+/// ServerHello: use_srtp extension, selected profile 0x0001 <-> 0x0007
+fn rewrite_srtp_profile(pkt: &[u8]) -> Vec<u8> {
+    let mut recs = wire::dtls_records(pkt);
+    for r in recs.iter_mut() {
+        if r.content_type != 22 || r.epoch != 0 || r.body.len() < 12 || r.body[0] != hs::HT_SERVER_HELLO {
+            continue;
+        }
+        let b = &mut r.body;
+        // header(12) version(2) random(32) session_id(1+n) cipher(2) compression(1) ext_len(2)
+        let mut o = 12 + 34;
+        if b.len() < o + 1 {
+            break;
+        }
+        o += 1 + b[o] as usize + 3 + 2;
+        while b.len() >= o + 4 {
+            let t = u16::from_be_bytes([b[o], b[o + 1]]);
+            let l = u16::from_be_bytes([b[o + 2], b[o + 3]]) as usize;
+            if t == 14 && l >= 5 && b.len() >= o + 8 {
+                b[o + 7] = if b[o + 7] == 1 { 7 } else { 1 };
+            }
+            o += 4 + l;
+        }
+    }
+    rebuild(&recs)
+}
+
 impl OnPath {
     fn from_victim(&self, op: &Op) -> bool {
         op.from_client == self.victim_is_client
@@ -399,6 +503,7 @@ impl OnPath {
             Kind::OmitRenumber => one(renumber(pkt)),
             Kind::SpliceStale(_) => one(self.splice(pkt)),
             Kind::StripEms => one(strip_ems(pkt)),
+            Kind::RewriteSrtpProfile => one(rewrite_srtp_profile(pkt)),
             Kind::RewriteFinished { bit } => one(self.rewrite_finished(pkt, *bit)),
             Kind::InjectPlainAppData => vec![
                 pkt.clone(),
@@ -436,6 +541,14 @@ fn rules_for(c: &Case) -> (Vec<Rule<DClass>>, Vec<usize>) {
     let client_side = if victim_is_client { victim } else { victim.other() };
     rules.push(Rule { from: client_side, class: DClass::ClientHello, ordinal: 0, action: Action::Drop });
     owner.push(usize::MAX);
+    if let Some(fg) = &c.forge {
+        if fg.drop_genuine {
+            for o in 0..ALL_ORD {
+                rules.push(Rule { from: victim.other(), class: DClass::Finished, ordinal: o, action: Action::Drop });
+                owner.push(usize::MAX);
+            }
+        }
+    }
     for (i, op) in c.ops.iter().enumerate() {
         let from = if op.from_client == victim_is_client { victim } else { victim.other() };
         let shift = if op.from_client && op.class == DClass::ClientHello { 1u16 } else { 0 };
@@ -468,7 +581,7 @@ fn rules_for(c: &Case) -> (Vec<Rule<DClass>>, Vec<usize>) {
                     push(*cl, ord, k.clone());
                 }
             }
-            Kind::StripEms | Kind::RewriteFinished { .. } => {
+            Kind::StripEms | Kind::RewriteSrtpProfile | Kind::RewriteFinished { .. } => {
                 for o in shift..ALL_ORD {
                     push(op.class, o, k.clone());
                 }
@@ -509,6 +622,50 @@ pub struct Observed {
     fired_ops: Vec<bool>,
     rewrite_skipped: bool,
     stale_missing: bool,
+    /// a forged Finished was injected: (started from the correct verify_data, sealed under the sender's key)
+    forged: Option<(bool, bool)>,
+}
+
+/// Build the forged Finished datagram for the victim from what the taps have seen so far.
+fn forge_finished(c: &Case, fg: &Forge, v_in: &[Bytes], p_in: &[Bytes], peer: &DtlsState) -> (Bytes, bool, bool) {
+    let to_v: Vec<hs::HsMsg> = v_in.iter().flat_map(|d| hs::plaintext_hs(d)).collect();
+    let next_seq = to_v.iter().filter(|m| m.msg_type != hs::HT_FINISHED).map(|m| m.message_seq).max().map(|s| s.wrapping_add(1)).unwrap_or(0);
+    let mut vd: Vec<u8> = (0..fg.len).map(|i| 0xC3u8.wrapping_add(i.wrapping_mul(7))).collect();
+    let mut correct = false;
+    let mut seal: Option<(Vec<u8>, Vec<u8>)> = None;
+    // keys are known only through an endpoint that already published them: a server peer that
+    // accepted the client victim's Finished
+    if let (false, DtlsState::Connected(pc, _)) = (c.victim_server, peer) {
+        let k = &pc.keys;
+        seal = Some((k.server_write_key.clone(), k.server_write_iv.clone()));
+        if fg.correct_prefix {
+            let from_v: Vec<hs::HsMsg> = p_in.iter().flat_map(|d| hs::plaintext_hs(d)).collect();
+            let first = |v: &Vec<hs::HsMsg>, t: u8| v.iter().find(|m| m.msg_type == t && m.whole()).map(|m| m.raw.clone());
+            let own_fin = p_in.iter().flat_map(|d| hs::protected_hs_records(d)).find_map(|r| {
+                wire::dtls_open(&k.client_write_key, &k.client_write_iv, &r).and_then(|p| hs::hs_messages(&p).into_iter().find(|m| m.msg_type == hs::HT_FINISHED).map(|m| m.raw))
+            });
+            let parts = [
+                first(&from_v, hs::HT_CLIENT_HELLO),
+                first(&to_v, hs::HT_SERVER_HELLO),
+                first(&to_v, hs::HT_CERTIFICATE),
+                first(&to_v, hs::HT_SERVER_KEY_EXCHANGE),
+                first(&to_v, hs::HT_SERVER_HELLO_DONE),
+                first(&from_v, hs::HT_CLIENT_KEY_EXCHANGE),
+                own_fin,
+            ];
+            if parts.iter().all(|p| p.is_some()) {
+                let t: Vec<u8> = parts.iter().flat_map(|p| p.clone().unwrap()).collect();
+                let right = hs::verify_data(&k.master_secret, b"server finished", &t);
+                vd = right.iter().cloned().chain(std::iter::repeat(0xEE)).take(fg.len as usize).collect();
+                correct = true;
+            }
+        }
+    }
+    let msg = hs::build_hs(hs::HT_FINISHED, next_seq, &vd);
+    match (&seal, fg.plaintext) {
+        (Some((key, iv)), false) => (Bytes::from(wire::dtls_seal(key, iv, 22, 1, 0x20, &msg)), correct, true),
+        _ => (Bytes::from(wire::dtls_record_bytes(22, 0, 0x6000, &msg)), correct, false),
+    }
 }
 
 async fn run_session(c: &Case, tm: Timing, stale: Option<Arc<Stale>>) -> anyhow::Result<Observed> {
@@ -571,14 +728,41 @@ async fn run_session(c: &Case, tm: Timing, stale: Option<Arc<Stale>>) -> anyhow:
                 *crypto = Some(cr.clone());
             }
         }
+        let mut forged: Option<(bool, bool)> = None;
+        let mut forge_at: Option<tokio::time::Instant> = None;
         loop {
             let s = rx.borrow_and_update().clone();
             note(&s, &mut states, &mut ever_connected, &mut victim_crypto);
             if matches!(s, DtlsState::Connected(..) | DtlsState::Failed | DtlsState::Closed) {
                 break;
             }
+            if let (Some(fg), None) = (&c.forge, forged) {
+                // the victim holds session keys once it has sent its own Finished (client) /
+                // once the ClientKeyExchange has been handed to it (server)
+                let ready = if c.victim_server {
+                    tap_v.log.lock().iter().any(|d| wire::dtls_class(d) == DClass::ClientKeyExchange)
+                } else {
+                    tap_p.log.lock().iter().any(|d| wire::dtls_class(d) == DClass::Finished)
+                        || onpath.log.lock().iter().any(|e| e.from_victim && wire::dtls_class(&e.original) == DClass::Finished)
+                };
+                if ready && forge_at.is_none() {
+                    // give a server peer the time to verify the victim's Finished and publish keys
+                    forge_at = Some(tokio::time::Instant::now() + Duration::from_millis(if c.victim_server { 4 } else { 25 }));
+                }
+                let peer_now = pair.b.dtls.get_state();
+                let due = forge_at.map(|t| tokio::time::Instant::now() >= t).unwrap_or(false);
+                if ready && (due || (!c.victim_server && matches!(peer_now, DtlsState::Connected(..)))) {
+                    let (v_in, p_in) = (tap_v.log.lock().clone(), tap_p.log.lock().clone());
+                    let (d, correct, sealed) = forge_finished(c, fg, &v_in, &p_in, &peer_now);
+                    forged = Some((correct, sealed));
+                    pair.inject(Side::A, d, pair.a.proxy_addr).await;
+                    continue;
+                }
+            }
+            let poll = c.forge.is_some() && forged.is_none();
             tokio::select! {
                 r = rx.changed() => { if r.is_err() { break; } }
+                _ = tokio::time::sleep(Duration::from_millis(3)), if poll => {}
                 _ = tokio::time::sleep_until(limit) => { break; }
             }
         }
@@ -634,13 +818,14 @@ async fn run_session(c: &Case, tm: Timing, stale: Option<Arc<Stale>>) -> anyhow:
             fired_ops,
             rewrite_skipped: onpath.rewrite_skipped.load(Ordering::Relaxed),
             stale_missing: onpath.stale_missing.load(Ordering::Relaxed),
+            forged,
         });
     }
     anyhow::bail!("could not install the taps before the first datagram (4 attempts)")
 }
 
 async fn record_stale(g: u8, tm: Timing) -> Option<Stale> {
-    let c = Case { victim_server: false, g, peer: Peer::Genuine, fp: Fp::Genuine, ops: vec![] };
+    let c = Case { victim_server: false, g, peer: Peer::Genuine, fp: Fp::Genuine, ops: vec![], ..Case::blank() };
     for _ in 0..3 {
         let Ok(o) = run_session(&c, tm, None).await else { continue };
         if !o.ever_connected {
@@ -731,7 +916,7 @@ pub(crate) fn client_auth(f: &str, a: &Analysis) -> ClientAuth {
         if let Some(list) = hs::certificate_list(&m.body) {
             if let Some(leaf) = list.first() {
                 r.any_certificate = true;
-                if hs::sdp_fingerprint(leaf) == f && !leaves.contains(leaf) {
+                if hs::fingerprint_names(f, leaf) && !leaves.contains(leaf) {
                     leaves.push(leaf.clone());
                 }
             }
@@ -784,7 +969,7 @@ pub(crate) fn client_auth(f: &str, a: &Analysis) -> ClientAuth {
 /// A server can only authenticate its client through Certificate + CertificateVerify.
 fn server_auth(f: &str, a: &Analysis) -> bool {
     let cert = a.to_victim.iter().filter(|m| m.msg_type == hs::HT_CERTIFICATE).any(|m| {
-        hs::certificate_list(&m.body).and_then(|l| l.first().cloned()).map(|leaf| hs::sdp_fingerprint(&leaf) == f).unwrap_or(false)
+        hs::certificate_list(&m.body).and_then(|l| l.first().cloned()).map(|leaf| hs::fingerprint_names(f, &leaf)).unwrap_or(false)
     });
     let cv = a.to_victim.iter().any(|m| m.msg_type == hs::HT_CERTIFICATE_VERIFY);
     cert && cv
@@ -801,7 +986,13 @@ fn uniq_raw<'a>(it: impl Iterator<Item = &'a hs::HsMsg>, t: u8) -> Vec<Vec<u8>> 
 }
 
 fn finished_msgs(recs: &[DtlsRec], key: &[u8], iv: &[u8]) -> Vec<hs::HsMsg> {
-    let mut out = Vec::new();
+    finished_msgs_with(recs, key, iv, &[])
+}
+
+/// Finished messages in protected records that open under (key, iv), plus those delivered in the
+/// clear (`plain`: epoch-0 handshake messages).
+fn finished_msgs_with(recs: &[DtlsRec], key: &[u8], iv: &[u8], plain: &[hs::HsMsg]) -> Vec<hs::HsMsg> {
+    let mut out: Vec<hs::HsMsg> = plain.iter().filter(|m| m.msg_type == hs::HT_FINISHED).cloned().collect();
     for r in recs {
         if let Some(p) = wire::dtls_open(key, iv, r) {
             for m in hs::hs_messages(&p) {
@@ -837,7 +1028,7 @@ pub(crate) fn finished_check(victim_server: bool, a: &Analysis, keys: &SessionKe
                 own_fin,
             ],
             b"server finished",
-            finished_msgs(&a.to_victim_prot, sk, siv),
+            finished_msgs_with(&a.to_victim_prot, sk, siv, &a.to_victim),
         )
     } else {
         (
@@ -850,7 +1041,7 @@ pub(crate) fn finished_check(victim_server: bool, a: &Analysis, keys: &SessionKe
                 uniq_raw(a.to_victim.iter(), hs::HT_CLIENT_KEY_EXCHANGE),
             ],
             b"client finished",
-            finished_msgs(&a.to_victim_prot, ck, civ),
+            finished_msgs_with(&a.to_victim_prot, ck, civ, &a.to_victim),
         )
     };
     let mut res = FinishedCheck { confirmed: false, delivered: delivered.len(), transcripts: 0 };
@@ -910,6 +1101,21 @@ fn judge(c: &Case, o: &Observed, sh: &Shared, force_server_auth: bool, rec: &Cas
         }
     ));
     rec.label(format!("fp={:?}", c.fp));
+    if c.fp_form != FpForm::Canonical && c.fp != Fp::None {
+        rec.label(format!("fp-form={:?}", c.fp_form));
+    }
+    if let Some(fg) = &c.forge {
+        match o.forged {
+            Some((correct, sealed)) => rec.label(format!(
+                "forged-finished:{}:len={}:{}:{}",
+                role,
+                fg.len,
+                if correct { "correct-prefix" } else { "garbage" },
+                if sealed { "sealed" } else { "plaintext" }
+            )),
+            None => rec.label("forged-finished:not-sent(victim never held keys)"),
+        }
+    }
     rec.label(format!("end={}:{}", role, o.final_state));
     let mut fired = 0;
     for (op, f) in c.ops.iter().zip(&o.fired_ops) {
@@ -936,8 +1142,8 @@ fn judge(c: &Case, o: &Observed, sh: &Shared, force_server_auth: bool, rec: &Cas
     let a = analyse(o);
     let describe = |what: &str| {
         format!(
-            "{what}; victim={role} peer={:?} fp={:?} ops={:?} states={:?} final={} ever_connected={} ekm_ok={} app_records={} delivered_to_victim={} dgrams",
-            c.peer, c.fp, c.ops, o.states, o.final_state, connected, o.ekm_ok, o.app.len(), o.v_in.len()
+            "{what}; victim={role} peer={:?} fp={:?}/{:?} forge={:?} ops={:?} states={:?} final={} ever_connected={} ekm_ok={} app_records={} delivered_to_victim={} dgrams",
+            c.peer, c.fp, c.fp_form, c.forge, c.ops, o.states, o.final_state, connected, o.ekm_ok, o.app.len(), o.v_in.len()
         )
     };
 
@@ -967,8 +1173,8 @@ fn judge(c: &Case, o: &Observed, sh: &Shared, force_server_auth: bool, rec: &Cas
         let au = client_auth(&f, &a);
         let auth_ok = au.cert_match && au.key_proof;
         rec.label(if auth_ok { "client:authenticated" } else { "client:not-authenticated" });
-        let impostor = c.peer != Peer::Genuine || !matches!(c.fp, Fp::Genuine | Fp::Presented);
-        rec.set_nontrivial(impostor || fired > 0);
+        let impostor = c.peer != Peer::Genuine || !matches!(c.fp, Fp::Genuine | Fp::Presented) || c.fp_form != FpForm::Canonical;
+        rec.set_nontrivial(impostor || fired > 0 || o.forged.is_some());
         if connected && !au.cert_match {
             let sig = if au.any_certificate { "client-connected-without-matching-certificate" } else { "client-connected-without-certificate" };
             return Err(Fail::new(sig, describe("the client victim reached Connected although no Certificate delivered in this handshake has a leaf whose SHA-256 equals the expected fingerprint")));
@@ -1006,7 +1212,7 @@ fn judge(c: &Case, o: &Observed, sh: &Shared, force_server_auth: bool, rec: &Cas
             }
         }
     } else {
-        rec.set_nontrivial(fired > 0 || force_server_auth);
+        rec.set_nontrivial(fired > 0 || force_server_auth || o.forged.is_some());
         let skip = sh.skip_server_auth && !force_server_auth;
         if skip {
             sh.server_auth_skipped.fetch_add(1, Ordering::Relaxed);
@@ -1107,7 +1313,11 @@ fn op_strategy(victim_server: bool) -> BoxedStrategy<Op> {
             kind: Kind::SpliceStale(w),
         })
         .boxed();
-    let strip = Just(Op { from_client: true, class: DClass::ClientHello, ordinal: 0, kind: Kind::StripEms }).boxed();
+    let strip = prop_oneof![
+        Just(Op { from_client: true, class: DClass::ClientHello, ordinal: 0, kind: Kind::StripEms }),
+        Just(Op { from_client: false, class: DClass::ServerHello, ordinal: 0, kind: Kind::RewriteSrtpProfile }),
+    ]
+    .boxed();
     let rewrite = (0..96u8)
         .prop_map(|bit| Op { from_client: false, class: DClass::Finished, ordinal: 0, kind: Kind::RewriteFinished { bit } })
         .boxed();
@@ -1158,17 +1368,104 @@ fn fp_strategy() -> impl Strategy<Value = Fp> {
     ]
 }
 
+const FP_FORMS: [FpForm; 9] = [
+    FpForm::AlgPrefix,
+    FpForm::Lower,
+    FpForm::NoColons,
+    FpForm::DropOctet,
+    FpForm::TrailingGarbage,
+    FpForm::TrailingOctet,
+    FpForm::Empty,
+    FpForm::Whitespace,
+    FpForm::Zero,
+];
+
+fn fp_form_strategy() -> impl Strategy<Value = FpForm> {
+    prop_oneof![7 => Just(FpForm::Canonical), 3 => prop::sample::select(FP_FORMS.to_vec())]
+}
+
+const FORGE_LENS: [u8; 6] = [0, 1, 6, 11, 13, 24];
+
+fn forge_strategy(victim_server: bool) -> impl Strategy<Value = Forge> {
+    (prop::sample::select(FORGE_LENS.to_vec()), any::<bool>(), prop::bool::weighted(0.6), prop::bool::weighted(0.8)).prop_map(move |(len, correct_prefix, plaintext, drop_genuine)| Forge {
+        len,
+        // a client peer never publishes keys before the server victim answered: garbage, plaintext
+        correct_prefix: correct_prefix && !victim_server,
+        plaintext: plaintext || victim_server,
+        drop_genuine,
+    })
+}
+
+/// Forged Finished messages: every length x {correct prefix, garbage} x {plaintext, sealed} with the
+/// genuine Finished dropped, alone and combined with one transcript modification; both roles.
+fn forge_cases() -> Vec<Case> {
+    let strip = Op { from_client: true, class: DClass::ClientHello, ordinal: 0, kind: Kind::StripEms };
+    let srtp = Op { from_client: false, class: DClass::ServerHello, ordinal: 0, kind: Kind::RewriteSrtpProfile };
+    let mut out = Vec::new();
+    let mut g = 0u8;
+    for len in FORGE_LENS {
+        for correct_prefix in [true, false] {
+            for plaintext in [true, false] {
+                g = (g + 1) % 5;
+                out.push(Case { g, forge: Some(Forge { len, correct_prefix, plaintext, drop_genuine: true }), ..Case::blank() });
+            }
+        }
+        // the attack as described: unsigned field rewritten, then a short plaintext Finished
+        for m in [&strip, &srtp] {
+            g = (g + 1) % 5;
+            out.push(Case { g, ops: vec![m.clone()], forge: Some(Forge { len, correct_prefix: false, plaintext: true, drop_genuine: true }), ..Case::blank() });
+        }
+        // server victim: the client's Finished dropped, forged one in the clear
+        for ops in [vec![], vec![strip.clone()]] {
+            g = (g + 1) % 5;
+            out.push(Case { victim_server: true, g, ops, forge: Some(Forge { len, correct_prefix: false, plaintext: true, drop_genuine: true }), ..Case::blank() });
+        }
+        // forged one racing the genuine one
+        out.push(Case { g, forge: Some(Forge { len, correct_prefix: true, plaintext: true, drop_genuine: false }), ..Case::blank() });
+    }
+    out
+}
+
+/// Non-canonical / malformed expected-fingerprint strings, derived from the genuine and from
+/// another certificate's digest, against a genuine peer and an impostor.
+fn fp_form_cases() -> Vec<Case> {
+    let mut out = Vec::new();
+    for form in FP_FORMS {
+        for fp in [Fp::Genuine, Fp::Attacker, Fp::Third] {
+            for peer in [Peer::Genuine, Peer::AttackerOwn, Peer::GenuineChainAttackerKey] {
+                out.push(Case { g: 1, peer, fp, fp_form: form, ..Case::blank() });
+            }
+        }
+    }
+    out
+}
+
 fn case_strategy() -> impl Strategy<Value = Case> {
     prop::bool::weighted(0.35)
         .prop_flat_map(move |vs| {
             // a client never sends its certificate, so for a server victim the peer variants are
             // indistinguishable: its cases go to the on-path operators
             let peer = if vs { Just(Peer::Genuine).boxed() } else { peer_strategy().boxed() };
-            let fp = if vs { prop_oneof![12 => Just(Fp::Genuine), 1 => Just(Fp::None)].boxed() } else { fp_strategy().boxed() };
+            let fp = if vs {
+                prop_oneof![12 => Just((Fp::Genuine, FpForm::Canonical)), 1 => Just((Fp::None, FpForm::Canonical))].boxed()
+            } else {
+                (fp_strategy(), fp_form_strategy()).boxed()
+            };
             let nops = if vs { 1..=3usize } else { 0..=3usize };
-            (Just(vs), 0..5u8, peer, fp, prop::collection::vec(op_strategy(vs), nops))
+            let forge = prop_oneof![4 => Just(None), 1 => forge_strategy(vs).prop_map(Some)];
+            (Just(vs), 0..5u8, peer, fp, prop::collection::vec(op_strategy(vs), nops), forge)
         })
-        .prop_map(|(victim_server, g, peer, fp, ops)| Case { victim_server, g, peer, fp, ops })
+        .prop_map(|(victim_server, g, mut peer, (mut fp, mut fp_form), mut ops, forge)| {
+            if forge.is_some() {
+                // a forged Finished only matters to a victim that got as far as holding session
+                // keys: genuine peer, matching fingerprint, at most one other operator
+                peer = Peer::Genuine;
+                fp = Fp::Genuine;
+                fp_form = FpForm::Canonical;
+                ops.truncate(1);
+            }
+            Case { victim_server, g, peer, fp, fp_form, ops, forge }
+        })
 }
 
 /// Every peer variant x every expected-fingerprint choice for a client victim, no operators.
@@ -1190,7 +1487,7 @@ fn matrix() -> Vec<Case> {
     for g in [0u8, 3] {
         for p in &peers {
             for fp in [Fp::Genuine, Fp::Attacker, Fp::Third, Fp::Presented, Fp::None] {
-                out.push(Case { victim_server: false, g, peer: p.clone(), fp, ops: vec![] });
+                out.push(Case { victim_server: false, g, peer: p.clone(), fp, ops: vec![], ..Case::blank() });
             }
         }
     }
@@ -1200,7 +1497,7 @@ fn matrix() -> Vec<Case> {
 fn server_probe() -> Vec<Case> {
     let mut out = Vec::new();
     for (peer, fp) in [(Peer::AttackerOwn, Fp::Genuine), (Peer::Genuine, Fp::Genuine), (Peer::AttackerOwn, Fp::Third), (Peer::EmptyChain, Fp::Genuine)] {
-        out.push(Case { victim_server: true, g: 0, peer, fp, ops: vec![] });
+        out.push(Case { victim_server: true, g: 0, peer, fp, ops: vec![], ..Case::blank() });
     }
     out
 }
@@ -1214,6 +1511,7 @@ fn key_confirmation_cases() -> Vec<Case> {
             peer: Peer::Genuine,
             fp: Fp::Genuine,
             ops: vec![Op { from_client: false, class: DClass::Finished, ordinal: 0, kind: Kind::RewriteFinished { bit } }],
+            ..Case::blank()
         });
     }
     for g in 0..5u8 {
@@ -1224,6 +1522,7 @@ fn key_confirmation_cases() -> Vec<Case> {
                 peer: Peer::Genuine,
                 fp: Fp::Genuine,
                 ops: vec![Op { from_client: true, class: DClass::ClientHello, ordinal: 0, kind: Kind::StripEms }],
+                ..Case::blank()
             });
         }
     }
@@ -1251,6 +1550,7 @@ fn bitflip_cases(all: bool, seed: u64) -> Vec<Case> {
                     peer: Peer::Genuine,
                     fp: Fp::Genuine,
                     ops: vec![Op { from_client: false, class, ordinal: 0, kind: Kind::FlipAt { byte: byte as u16, bit } }],
+                    ..Case::blank()
                 });
             }
         }
@@ -1371,10 +1671,14 @@ pub fn run(ctx: &mut Ctx) {
     run_fixed(ctx, &rt, "matrix", matrix(), conc, checker(sh.clone(), false));
     // 3. key confirmation
     run_fixed(ctx, &rt, "key-confirmation", key_confirmation_cases(), conc, checker(sh.clone(), false));
+    // 3b. forged Finished with wrong-length verify_data
+    run_fixed(ctx, &rt, "finished-forge", forge_cases(), conc, checker(sh.clone(), false));
+    // 3c. non-canonical / malformed expected-fingerprint strings
+    run_fixed(ctx, &rt, "fingerprint-forms", fp_form_cases(), conc, checker(sh.clone(), false));
     // 4. plaintext application data before authentication, asked directly
     let plain_probe = vec![
-        Case { victim_server: false, g: 2, peer: Peer::AttackerOwn, fp: Fp::Genuine, ops: vec![Op { from_client: false, class: DClass::ServerHello, ordinal: 0, kind: Kind::InjectPlainAppData }] },
-        Case { victim_server: false, g: 2, peer: Peer::GenuineChainAttackerKey, fp: Fp::Genuine, ops: vec![Op { from_client: false, class: DClass::Certificate, ordinal: 0, kind: Kind::InjectPlainAppData }] },
+        Case { victim_server: false, g: 2, peer: Peer::AttackerOwn, fp: Fp::Genuine, ops: vec![Op { from_client: false, class: DClass::ServerHello, ordinal: 0, kind: Kind::InjectPlainAppData }], ..Case::blank() },
+        Case { victim_server: false, g: 2, peer: Peer::GenuineChainAttackerKey, fp: Fp::Genuine, ops: vec![Op { from_client: false, class: DClass::Certificate, ordinal: 0, kind: Kind::InjectPlainAppData }], ..Case::blank() },
     ];
     run_fixed(ctx, &rt, "plaintext-probe", plain_probe, 2, checker(sh.clone(), false));
     // 5. single-bit flips of the Certificate and ServerKeyExchange datagrams
